@@ -14,10 +14,16 @@ VARIABLES l, nbad, st, ref, nref
 tvars == <<l, nbad, st, ref, nref>>
 T == ndJsonDeserialize(IOEnv.TRACE)
 
-Empty == [seed |-> 0, n |-> 0]
+\* base.on = FALSE: the message started at the initial hash value; otherwise [S, cnt]: long-message mode (driver ops poke /
+\* zeros) - cnt bytes went before, the intermediate hash value after them was S (logged), Stream(seed, n) follows
+NoBase == [on |-> FALSE, S |-> <<>>, cnt |-> <<>>]
+Empty == [seed |-> 0, n |-> 0, base |-> NoBase]
+Pairs(w) == [i \in 1..8 |-> <<w[2 * i - 1], w[2 * i]>>]
+MiB(m) == <<0, m \div 4096, (m % 4096) * 16, 0>>         \* m * 2^20 as limbs
 NormSeed(seed, n) == IF n = 0 THEN 0 ELSE seed
 RefOf(key) ==           \* reference digest for a key <<"hash", seed, n>> or <<"hmac", kseed, klen, seed, n>>
   IF key[1] = "hash" THEN Hash(Stream(key[2], key[3]))
+  ELSE IF key[1] = "from" THEN HashFrom(key[2], key[3], Stream(key[4], key[5]))
   ELSE Hmac(Stream(key[2], key[3]), Stream(key[4], key[5]))
 \* Lookup: the successor value of `ref` for a request with this key
 Lookup(key) == IF ref.key = key THEN ref ELSE [key |-> key, dig |-> RefOf(key)]
@@ -39,9 +45,23 @@ TStep ==
             \* the generator of the check only produces contiguous pieces of one stream; anything else is a
             \* broken trace (not a verdict about the library)
             /\ Assert(e.off = st.n /\ (st.n = 0 \/ e.len = 0 \/ e.seed = st.seed), <<"BAD-TRACE", l>>)
-            /\ st' = IF e.len = 0 THEN st ELSE [seed |-> e.seed, n |-> st.n + e.len]
+            /\ st' = IF e.len = 0 THEN st ELSE [st EXCEPT !.seed = e.seed, !.n = st.n + e.len]
             /\ UNCHANGED <<nbad, ref, nref>>
-       [] e.op = "fin" -> Judge(e, <<"hash", NormSeed(st.seed, st.n), st.n>>) /\ st' = Empty
+       [] e.op = "poke" ->
+            \* injected byte count: the chaining value must be the initial one on a fresh hasher
+            /\ Assert(st.n = 0 /\ e.cnt[4] % 64 = 0, <<"BAD-TRACE", l>>)
+            /\ st' = [Empty EXCEPT !.base = [on |-> TRUE, S |-> Pairs(e.S), cnt |-> e.cnt]]
+            /\ IF ~st.base.on /\ Pairs(e.S) # H0 THEN Bad(e) ELSE UNCHANGED nbad
+            /\ UNCHANGED <<ref, nref>>
+       [] e.op = "zeros" ->
+            \* e.mib MiB went through update(): the byte counter must say so; the chaining value is taken as logged
+            /\ Assert(st.n = 0 /\ ~st.base.on, <<"BAD-TRACE", l>>)
+            /\ st' = [Empty EXCEPT !.base = [on |-> TRUE, S |-> Pairs(e.S), cnt |-> MiB(e.mib)]]
+            /\ IF e.cnt # MiB(e.mib) THEN Bad(e) ELSE UNCHANGED nbad
+            /\ UNCHANGED <<ref, nref>>
+       [] e.op = "fin" -> /\ IF ~st.base.on THEN Judge(e, <<"hash", NormSeed(st.seed, st.n), st.n>>)
+                             ELSE Judge(e, <<"from", st.base.S, st.base.cnt, NormSeed(st.seed, st.n), st.n>>)
+                          /\ st' = Empty
        [] e.op = "hash" -> Judge(e, <<"hash", NormSeed(e.seed, e.len), e.len>>) /\ UNCHANGED st
        [] e.op = "hmac" -> Judge(e, <<"hmac", NormSeed(e.kseed, e.klen), e.klen, NormSeed(e.seed, e.len), e.len>>)
                            /\ UNCHANGED st
